@@ -2010,10 +2010,32 @@ void Generator::GeneratorImpl::addImplementationInitialiseVariablesMethodCode(st
             }
         }
 
-        // Initialise our states.
+        // Initialise our states, except those that are initialised using an
+        // external variable (they can only be initialised once that external
+        // variable has been initialised).
+
+        std::string externallyInitialisedStatesCode;
+        std::vector<AnalyserVariablePtr> initialisingExternalVariables;
 
         for (const auto &state : mModel->states()) {
-            methodBody += generateInitialisationCode(state);
+            auto initialisingVariable = state->initialisingVariable();
+            AnalyserVariablePtr initialisingExternalVariable;
+
+            if (!isCellMLReal(initialisingVariable->initialValue())) {
+                auto initialValueVariable = analyserVariable(owningComponent(initialisingVariable)->variable(initialisingVariable->initialValue()));
+
+                if (initialValueVariable->type() == AnalyserVariable::Type::EXTERNAL) {
+                    initialisingExternalVariable = initialValueVariable;
+                }
+            }
+
+            if (initialisingExternalVariable != nullptr) {
+                initialisingExternalVariables.push_back(initialisingExternalVariable);
+
+                externallyInitialisedStatesCode += generateInitialisationCode(state);
+            } else {
+                methodBody += generateInitialisationCode(state);
+            }
         }
 
         // Use an initial guess of zero for rates computed using an NLA system
@@ -2034,6 +2056,16 @@ void Generator::GeneratorImpl::addImplementationInitialiseVariablesMethodCode(st
             std::copy_if(equations.begin(), equations.end(),
                          std::back_inserter(remainingExternalEquations),
                          [](const AnalyserEquationPtr &equation) { return equation->type() == AnalyserEquation::Type::EXTERNAL; });
+
+            // Start with the external variables that are used to initialise
+            // some states, then initialise those states, and finish with the
+            // other external variables (which may depend on those states).
+
+            for (const auto &initialisingExternalVariable : initialisingExternalVariables) {
+                methodBody += generateEquationCode(initialisingExternalVariable->equation(0), remainingExternalEquations);
+            }
+
+            methodBody += externallyInitialisedStatesCode;
 
             for (const auto &equation : mModel->equations()) {
                 if (equation->type() == AnalyserEquation::Type::EXTERNAL) {
